@@ -198,7 +198,8 @@ class Flow:
         if isinstance(e, (ast.Attribute, ast.Subscript)):
             if isinstance(e, ast.Subscript) and isinstance(
                     e.slice, ast.Constant) and isinstance(
-                        e.slice.value, int):
+                        e.slice.value, int) and self._selectable(
+                            e.value, fn, depth):
                 el = self.elem_atoms(e.value, e.slice.value, fn, bind, depth,
                                      _seen)
                 if el:
@@ -399,6 +400,24 @@ class Flow:
                 while isinstance(first.value, (ast.Attribute,
                                                ast.Subscript)):
                     first = first.value
+                if isinstance(first, ast.Attribute) and root.id in (
+                        'self', 'cls'):
+                    prop = self._property(first.attr, fn)
+                    if prop is not None and prop is not fn and \
+                            depth < self.max_depth:
+                        rest = self._suffix_after(e, first, fn, bind, _seen)
+                        for r_ in self._returns(prop):
+                            for a in self.atoms(r_, prop, None, depth + 1,
+                                                _seen):
+                                if a.startswith(('const:', 'key:')):
+                                    continue
+                                if a.startswith(('alloc:', 'via:')) or \
+                                        not rest:
+                                    out.add(a)
+                                else:
+                                    out.add((a[6:] if a.startswith('param:')
+                                             else a) + rest)
+                        return out
                 if isinstance(first, ast.Subscript):
                     lf = self._local_field(root.id, first.slice, fn, bind,
                                            depth, _seen)
@@ -431,6 +450,24 @@ class Flow:
             out.add(unparse(e))
         return out
 
+    def _property(self, attr, fn):
+        ci = fn.cls
+        if ci is None:
+            for sc in self._scope_chain(fn):
+                if sc.cls is not None:
+                    ci = sc.cls
+                    break
+        if ci is None:
+            return None
+        o, meth = ci.find_method(attr)
+        if meth is None:
+            return None
+        for d in meth.decorator_list:
+            if unparse(d) in ('property', 'functools.cached_property',
+                              'cached_property'):
+                return meth._func
+        return None
+
     def _suffix_after(self, e, first, fn, bind, _seen):
         parts = []
         n = e
@@ -447,6 +484,10 @@ class Flow:
     def _key_text(self, k, fn):
         if isinstance(k, ast.Constant):
             return repr(k.value)
+        if isinstance(k, ast.UnaryOp) and isinstance(k.op, ast.USub) and \
+                isinstance(k.operand, ast.Constant) and isinstance(
+                    k.operand.value, int):
+            return repr(-k.operand.value)
         if isinstance(k, ast.Attribute):
             r = k
             while isinstance(r, ast.Attribute):
@@ -576,10 +617,37 @@ class Flow:
             return pl, stored
         return None
 
+    def _func_value(self, name, fn):
+        """FuncInfo when `name` denotes a function (nested def of an
+        enclosing scope, or a module-level function of the repository)."""
+        for sc in self._scope_chain(fn):
+            if name in Q.params(sc.node) or name in self.defs(sc.node):
+                return None
+            for n in walk_no_nested(sc.node):
+                if isinstance(n, (ast.FunctionDef, ast.AsyncFunctionDef)) \
+                        and n.name == name and getattr(n, '_func', None):
+                    return n._func
+        try:
+            r = self.repo.resolve_symbol(fn.module.name, name)
+        except Exception:
+            r = None
+        if r is not None and r[0] == 'func':
+            return r[1]
+        return None
+
     def _name_atoms(self, name, fn, bind, depth, _seen):
         out = set()
         if fn is None:
             return {name}
+        fv = self._func_value(name, fn)
+        if fv is not None:
+            # a function used as a value stands for what it returns (like a
+            # lambda), plus its name
+            out.add(fv.qualname)
+            if depth < self.max_depth:
+                for r in self._returns(fv):
+                    out |= self.atoms(r, fv, None, depth + 1, _seen)
+            return out
         for sc in self._scope_chain(fn):
             ds = self.defs(sc.node).get(name, [])
             is_param = name in Q.params(sc.node)
@@ -602,6 +670,22 @@ class Flow:
             sub = self.atoms(r[3], None, None, depth + 1, _seen)
             return sub | {name}
         return {name}
+
+    def _selectable(self, e, fn, depth):
+        """Can position idx of `e` be selected statically (a tuple/list
+        display, possibly through one local or a repository callee)?"""
+        if isinstance(e, (ast.Tuple, ast.List)):
+            return True
+        if isinstance(e, ast.Call) and fn is not None:
+            return self.resolve_call(e, fn) is not None
+        if isinstance(e, ast.Name) and fn is not None:
+            for sc in self._scope_chain(fn):
+                ds = self.defs(sc.node).get(e.id)
+                if ds:
+                    return all(k == 'value' and isinstance(
+                        x, (ast.Tuple, ast.List, ast.Call))
+                        for k, x, i in ds)
+        return False
 
     def elem_atoms(self, e, idx, fn, bind, depth, _seen):
         """Atoms of element `idx` of a tuple-valued expression."""
@@ -961,6 +1045,11 @@ class Flow:
                     out.add(x)
                 else:
                     out.add('via:' + x)
+        if isinstance(e.func, ast.Attribute):
+            for x in A(e.func.value):
+                if x.startswith(('const:', 'key:')):
+                    continue
+                out.add(x if x.startswith('via:') else 'via:' + x)
         return out
 
     def _arg_text(self, call):
